@@ -259,6 +259,21 @@ func DecodeClaimsFromJSON(buf []byte) (IClaims, error) {
 	}
 
 	if found == nil {
+		// No registered profile field carries a value: assume the
+		// default profile (PSA_IOT_PROFILE_1), as documented. A profile
+		// value that did not match anything is still an error.
+		for _, entry := range profilesRegister {
+			if profileTag, ok := decoded[entry.JSONTag]; ok && profileTag != nil {
+				return nil, errors.New(`could not match profile`)
+			}
+		}
+
+		if entry, ok := profilesRegister[""]; ok {
+			found = entry.Profile
+		}
+	}
+
+	if found == nil {
 		return nil, errors.New(`could not match profile`)
 	}
 
